@@ -72,7 +72,7 @@ Calls ==
   \cup {Call0 @@ [a |-> "Extend", m |-> Prov, decls |-> <<q[1], q[2]>>] : q \in Decls2}
   \cup {Call0 @@ [a |-> "ExtendClaimTerms", c |-> c, terms |-> <<[provider |-> Prov, claim |-> i, tmax |-> VR.claims[i].tmax + x]>>, res |-> <<>>] :
           c \in {"c1"} \cup (IF Rich THEN {"c2"} ELSE {}), i \in {k \in DOMAIN VR.claims : VR.claims[k].tmax < TermCap},
-          x \in {P} \cup (IF Rich THEN {-1, 0, MaxTerm} ELSE {})}
+          x \in {P, -1} \cup (IF Rich THEN {0, MaxTerm} ELSE {})}
   \cup {Call0 @@ [a |-> "RemoveExpiredClaims", c |-> "x", p |-> Prov, ids |-> q, removed |-> {}] : q \in {<<>>} \cup {<<i>> : i \in Ids}}
   \cup {Call0 @@ [a |-> "RemoveExpiredAllocs", c |-> "x", cl |-> "c1", ids |-> q, removed |-> {}] : q \in {<<>>} \cup {<<i>> : i \in Ids}}
   \cup {Call0 @@ [a |-> "Terminate", m |-> Prov, n |-> n] : n \in InAmt(SM)}
@@ -151,16 +151,47 @@ DeclClass(dc) == <<dc.exp - SM.sec[dc.n].exp, Len(dc.maintain), Len(dc.drop), No
                    Active(SM, dc.n, epoch), Cmp(SM.sec[dc.n].exp - epoch, DropPeriod), SM.sec[dc.n].vs > 0,
                    {IdClass(dc.maintain[k], dc.n, dc.exp) : k \in 1..Len(dc.maintain)},
                    {IdClass(dc.drop[k], dc.n, dc.exp) : k \in 1..Len(dc.drop)}>>
+\* why the model turns an extension down (every check that fails, evaluated on the state before the message)
+ExtReasons(decls) ==
+  LET ids(dc) == dc.maintain \o dc.drop
+      kn(i) == i \in DOMAIN VR.claims /\ VR.claims[i].provider = Prov
+      all == AllIds(decls)
+      sz(q) == SumInts([k \in 1..Len(q) |-> IF kn(q[k]) THEN VR.claims[q[k]].size ELSE 0])
+      of(n) == {i \in 1..Len(decls) : decls[i].n = n}
+      chk(n) == SumSet(of(n), [i \in of(n) |-> sz(ids(decls[i]))])
+      kp(n) == SumSet(of(n), [i \in of(n) |-> sz(decls[i].maintain)])
+      per(dc) ==
+        IF dc.n \notin InAmt(SM) THEN {"nosector"}
+        ELSE LET sc == SM.sec[dc.n] IN
+             (IF ~Active(SM, dc.n, epoch) THEN {"inactive"} ELSE {})
+             \cup (IF sc.exp < epoch THEN {"expired"} ELSE {})
+             \cup (IF dc.exp < sc.exp THEN {"shrink"} ELSE {})
+             \cup (IF dc.exp - sc.act < MinLife \/ dc.exp > epoch + MaxLife THEN {"life"} ELSE {})
+             \cup (IF dc.exp <= epoch THEN {"zero"} ELSE {})
+             \cup (IF sc.vs > 0 /\ ((\A i \in of(dc.n) : Len(ids(decls[i])) = 0) \/ chk(dc.n) # sc.vs) THEN {"space"} ELSE {})
+             \cup (IF sc.vs > 0 /\ chk(dc.n) # kp(dc.n) /\ sc.exp - epoch > DropPeriod THEN {"window"} ELSE {})
+  IN  (IF \E k \in 1..Len(all) : ~kn(all[k]) THEN {"unknown"} ELSE {})
+      \cup (IF \E i \in 1..Len(decls) : \E k \in 1..Len(ids(decls[i])) : kn(ids(decls[i])[k]) /\ VR.claims[ids(decls[i])[k]].sector # decls[i].n THEN {"foreign"} ELSE {})
+      \cup (IF \E i \in 1..Len(decls) : \E k \in 1..Len(decls[i].maintain) : kn(decls[i].maintain[k]) /\ decls[i].exp > TermEnd(VR, decls[i].maintain[k]) THEN {"term"} ELSE {})
+      \cup (IF ~NoDup(all) THEN {"dup"} ELSE {})
+      \cup (IF \E i, j \in 1..Len(decls) : i # j /\ decls[i].n = decls[j].n /\ Len(ids(decls[i])) > 0 THEN {"twice"} ELSE {})
+      \cup UNION {per(decls[i]) : i \in 1..Len(decls)}
 ArgClass(l) ==
   CASE l.a = "Transfer" -> <<Len(l.allocs), Len(l.exts)>>
     [] l.a = "CommitNI" -> <<l.exp - epoch, (l.d - Cur + D) % D>>
     [] l.a = "PreCommit" -> <<l.secs[1].exp - epoch, PieceClass(l.secs[1].pieces)>>
     [] l.a = "ProveCommit" -> <<Len(l.secs), l.requireAll, l.res>>
     [] l.a = "ReplicaUpdate" -> <<[k \in 1..Len(l.ups) |-> PieceClass(l.ups[k].pieces)], l.requireAll, l.res>>
-    [] l.a = "Extend" -> <<[k \in 1..Len(l.decls) |-> DeclClass(l.decls[k])],
-                           Len(l.decls) = 2 /\ l.decls[1].n = l.decls[Len(l.decls)].n>>
+    [] l.a = "Extend" -> IF l.ok THEN <<[k \in 1..Len(l.decls) |-> DeclClass(l.decls[k])],
+                                        Len(l.decls) = 2 /\ l.decls[1].n = l.decls[Len(l.decls)].n>>
+                         ELSE <<Len(l.decls), ExtReasons(l.decls)>>
     [] l.a = "ExtendClaimTerms" -> <<l.c, l.terms[1].tmax - VR.claims[l.terms[1].claim].tmax, l.res>>
-    [] l.a \in {"RemoveExpiredAllocs", "RemoveExpiredClaims"} -> <<Len(l.ids), Cardinality(l.removed)>>
+    [] l.a = "RemoveExpiredClaims" -> <<Len(l.ids), Cardinality(l.removed),
+                                        {IF l.ids[k] \notin DOMAIN VR.claims THEN "none"
+                                         ELSE IF epoch = TermEnd(VR, l.ids[k]) - 1 THEN "eve" ELSE Cmp(epoch, TermEnd(VR, l.ids[k])) : k \in 1..Len(l.ids)}>>
+    [] l.a = "RemoveExpiredAllocs" -> <<Len(l.ids), Cardinality(l.removed),
+                                        {IF l.ids[k] \notin DOMAIN VR.allocs THEN "none"
+                                         ELSE IF epoch = VR.allocs[l.ids[k]].exp - 1 THEN "eve" ELSE Cmp(epoch, VR.allocs[l.ids[k]].exp) : k \in 1..Len(l.ids)}>>
     [] l.a = "Terminate" -> "-"
     [] OTHER -> "-"
 Tour ==
